@@ -110,10 +110,47 @@ def run_number_equality(rec, F, which):
     rec.inst(R, "%s: PartialEq compares numbers as f64" % which, ok=ok, loc=eq.loc)
     if not ok:
         rec.finding(R, "F10.eq/%s/bitwise-eq" % which, "%s::Value equality compares raw bits: 0 == -0 is false and NaN == NaN is true in this representation (IEEE in the other one)" % which, loc=eq.loc, fn=eq.path)
+    # exactness: nothing but the IEEE comparison itself decides number equality (no tolerance, no rounding)
+    if ok:
+        extra = []
+        for bi, si, s in eq.stmts():
+            r = s["r"]
+            if r["k"] in ("bin", "checked") and r["op"] not in ("Eq", "Ne"):
+                for o in (r["a"], r["b"]):
+                    l = op_local(o)
+                    if l is not None and eq.locals[l] == "f64":
+                        extra.append((r["op"], s["sp"]))
+            if r["k"] == "cast" and r.get("ck") in ("FloatToInt", "FloatToFloat"):
+                extra.append(("cast " + r.get("ck"), s["sp"]))
+        for bi, t in eq.calls():
+            if re.search(r"\bf64\b", t["f"]) and "PartialEq" not in t["f"] and lastseg(t["f"]) not in ("to_num",):
+                extra.append((lastseg(t["f"]), t["sp"]))
+        oke = not extra
+        rec.inst(R, "%s: number equality is exactly the IEEE comparison" % which, ok=oke, loc=eq.loc)
+        if not oke:
+            rec.finding(R, "F10.eq/%s/inexact-eq/%s" % (which, extra[0][0]), "%s::Value equality computes with the two numbers (%s) besides comparing them: distinct doubles can compare equal in this representation only (list.has/index, map keys and the compiler's constant table all use this equality)" % (which, ", ".join(sorted(set(x[0] for x in extra)))), loc=loc_of(extra[0][1]), fn=eq.path)
     h = F.find1(r"<laythe_core::value::%s::Value as core::hash::Hash>::hash$" % which)
     if h is None:
         rec.anchor_lost("F10.eq", "Hash::hash for %s::Value" % which)
         return
+    # Eq/Hash agreement on numbers: with IEEE equality (0 == -0) the hash must not separate bit patterns that compare equal
+    if ok:
+        bits = []
+        for bi, si, s in h.stmts():
+            r = s["r"]
+            if r["k"] == "cast" and r.get("ck") == "Transmute":
+                l = op_local(r["a"])
+                if l is not None and h.locals[l] == "f64":
+                    bits.append(("transmute", s["sp"]))
+        for bi, t in h.calls():
+            if lastseg(t["f"]) in ("to_bits", "to_ne_bytes", "to_le_bytes", "to_be_bytes") and "f64" in t["f"]:
+                bits.append((lastseg(t["f"]), t["sp"]))
+            if "Hash for f64" in t["f"]:
+                bits.append(("f64-hash", t["sp"]))
+        okb = not bits
+        rec.inst(R, "%s: numbers that compare equal hash equal (hash is not finer than ==)" % which, ok=okb, loc=h.loc)
+        if not okb:
+            rec.finding(R, "F10.eq/%s/hash-finer-than-eq" % which, "%s::Value compares numbers with IEEE == (0 == -0) but hashes their bit pattern (%s): 0 and -0 are equal keys with different hashes, so a map holding one does not find the other" % (which, bits[0][0]), loc=loc_of(bits[0][1]), fn=h.path)
     branches = [b for b in h.reachable if h.blocks[b]["t"]["k"] == "switch"]
     calls = [lastseg(t["f"]) for _, t in h.calls()]
     okh = bool(branches) or "is_num" in calls or "kind" in calls
@@ -415,6 +452,85 @@ def run_forwarding(rec, F, S=None):
             if not ok:
                 rec.finding(RS, "F10.scan/%s" % who, "%s grows its receiver list but does not rescan the roots when the list has moved: stack slots and fields keep pointing at the old allocation" % who, loc=loc_of(t["sp"]), fn=fn.path)
     rec.floor(RS, "receiver-growing list natives", n, 2)
+
+
+IDENTITY_SINKS = ("contains", "eq", "ne", "position", "rposition", "get", "get_mut", "insert", "remove", "contains_key", "has", "index_of", "binary_search", "starts_with", "ends_with")
+
+
+def run_stale_after_scan(rec, F):
+    """scan_roots rewrites the argument slots in place; a Value copied out of args before it is the old address"""
+    R = rec.rule("F10.stale", "scan_roots() rewrites the stack slots that `args` aliases to the relocated addresses, and Value equality is address equality: a Value copied out of args before the rescan is not compared (==, contains, position, map lookup) after it; such comparisons re-read args")
+    n = 0
+    for fn in F.all_fns():
+        if fn.crate != "laythe_lib" or "::test" in fn.path or fn.kind == "Closure":
+            continue
+        scans = [bi for bi, t in fn.calls() if lastseg(t["f"]) == "scan_roots"]
+        if not scans:
+            continue
+        for B in scans:
+            n += 1
+            after = sem.region_from_edge(fn, fn.blocks[B]["t"]["to"]) if fn.blocks[B]["t"]["to"] >= 0 else set()
+            # Values copied out of args (arg 3 of LyNative::call is the slice) in blocks that can run before the scan
+            seeds = set()
+            for bi, si, s in fn.stmts():
+                if not sem.reaches(fn, bi, B) and bi != B:
+                    continue
+                r = s["r"]
+                if r["k"] != "use" or s["d"]["p"]:
+                    continue
+                pl = op_place(r["a"])
+                if pl is None or not any(p[0] in ("index", "cindex") for p in pl["p"]):
+                    continue
+                root = fn.root_of({"copy": {"l": pl["l"], "p": []}})
+                if (root[0] == "arg" and root[1] == 3) or (pl["l"] == 3):
+                    ty = fn.locals[s["d"]["l"]]
+                    if ty.endswith("Value"):
+                        seeds.add(s["d"]["l"])
+            if not seeds:
+                rec.inst(R, "%s: nothing copied out of args before the rescan" % (re.sub(r".*::(\w+) as .*", r"\1", fn.path)), ok=True, loc=fn.loc)
+                continue
+            taint = sem.forward_taint(fn, seeds, through_calls=False)
+            clos = sem.closure_paths_in(fn)
+            bad = None
+            for bj in sorted(after):
+                u = fn.blocks[bj]["t"]
+                if u["k"] != "call":
+                    continue
+                targs = [(op_place(a) or {}).get("l") for a in u["args"]]
+                if lastseg(u["f"]) in IDENTITY_SINKS and any(x in taint for x in targs):
+                    bad = u
+                    break
+                # a closure that captured the stale value, used after the rescan
+                for a in u["args"]:
+                    l = op_local(a)
+                    if l in clos:
+                        for bi2, si2, s2 in fn.stmts():
+                            if s2["d"]["l"] != l or s2["r"]["k"] != "agg":
+                                continue
+                            for idx, o in enumerate(s2["r"].get("ops", [])):
+                                if (op_place(o) or {}).get("l") not in taint:
+                                    continue
+                                c = F.fn(clos[l])
+                                if c is None:
+                                    continue
+                                # does the closure body compare what it captured in position idx?
+                                cseeds = set()
+                                for b3, s3i, s3 in c.stmts():
+                                    for q in sem.places_in_rvalue(s3["r"]):
+                                        if q["l"] == 1 and any(pp[0] == "field" and pp[1] == idx for pp in q["p"]):
+                                            cseeds.add(s3["d"]["l"])
+                                ct = sem.forward_taint(c, cseeds, through_calls=False) if cseeds else set()
+                                for b4, u4 in c.calls():
+                                    if lastseg(u4["f"]) in IDENTITY_SINKS and any((op_place(a4) or {}).get("l") in ct for a4 in u4["args"]):
+                                        bad = u
+                if bad:
+                    break
+            who = re.sub(r".*::(\w+) as .*", r"\1", fn.path)
+            ok = bad is None
+            rec.inst(R, "%s: pre-rescan copies of args are not compared afterwards" % who, ok=ok, loc=fn.loc)
+            if not ok:
+                rec.finding(R, "F10.stale/%s/%s" % (who, lastseg(bad["f"])), "%s copies a Value out of args, calls scan_roots() (which rewrites args to the relocated addresses) and then compares the stale copy with %s: a list that was relocated is no longer found/equal" % (who, lastseg(bad["f"])), loc=loc_of(bad["sp"]), fn=fn.path)
+    rec.floor(R, "scan_roots call sites in natives", n, 10)
 
 
 # ---------------------------------------------------------------------------
